@@ -30,11 +30,12 @@ def oraclize(qf: QlassF, element: Any, name="oracle"):
     """Transform a QlassF qf and an element to an oracle {f(x) = x == element}"""
     argt_name = type_repr(qf.args[0].ttype)
 
-    if qf.name == name:
-        qf.name = f"_{name}"
+    # Rename the inner function in its own description, not in the caller's object
+    qf_name = f"_{name}" if qf.name == name else qf.name
+    qf_def = (qf_name,) + qf.to_logicfun()[1:]
 
-    fs = f"def {name}(v: {argt_name}) -> bool:\n   return {qf.name}(v) == {element}"
-    oracle = QlassF.from_function(fs, defs=[qf.to_logicfun()])
+    fs = f"def {name}(v: {argt_name}) -> bool:\n   return {qf_name}(v) == {element}"
+    oracle = QlassF.from_function(fs, defs=[qf_def])
 
     if (
         len(oracle.expressions) == 1
